@@ -90,7 +90,7 @@ def check_key(ctx, curve, dom, d, named, lzhint=None):
     oid = tuple(curve.oid)
     d_bytes = d.to_bytes(Ln, "big")
     # ---------------- raw
-    ctx.case("sk.raw", key="%s|%s" % (cname, lz))
+    ctx.case("sk.raw", key="%s|%s" % (cname, lz), sample=dict(curve=cname, d=d, Q=Q, leading_zero=lz) if ctx.want("sk.raw") else None)
     try:
         raw = sk.to_string()
         ctx.check(raw == d_bytes, "raw_private_encoding_wrong", "%s d=%d: to_string() = %s" % (cname, d, bytes(raw).hex()), dict(curve=cname, d=d))
